@@ -162,6 +162,36 @@ func reachesFunc(P *core.Program, fn, target *ssa.Function) bool {
 	return false
 }
 
+// regFirst: in the merged kind-5 step sc, some write to the deletion registry is not
+// preceded by a removal — the registration is not skipped once a target was removed.
+// (A step that only writes the registry never reaches del; a step that does both must
+// contain a registry write that a call leading to del does not dominate.)
+func regFirst(P *core.Program, sc, del *ssa.Function) bool {
+	ok := false
+	var removals []ssa.Instruction
+	for _, ci := range calls(sc) {
+		if g := an.StaticCallee(ci.Common()); g != nil && P.InModule(g) && (sameFunc(g, del) || reachesFunc(P, g, del)) {
+			removals = append(removals, ci)
+		}
+	}
+	an.Instrs(sc, func(in ssa.Instruction) {
+		mu, isMU := in.(*ssa.MapUpdate)
+		if !isMU || !strings.Contains(an.PathOf(mu.Map), ".deleted") {
+			return
+		}
+		dominated := false
+		for _, r := range removals {
+			if an.InstrDominates(r, mu) {
+				dominated = true
+			}
+		}
+		if !dominated {
+			ok = true
+		}
+	})
+	return ok
+}
+
 func runRegCoupd(c *core.Ctx) {
 	P := c.P
 	a := resolveCache(c)
@@ -196,9 +226,11 @@ func runRegCoupd(c *core.Ctx) {
 				}
 			})
 		}
+		// one step each, or both in one merged step (register every reference, then remove the targets)
 		if writesReg {
 			regCall = call
-		} else if reachesFunc(P, sc, a.del) {
+		}
+		if reachesFunc(P, sc, a.del) && (!writesReg || regFirst(P, sc, a.del)) {
 			delCall = call
 		}
 	}
